@@ -204,7 +204,7 @@ func (fsm *FSM) Apply(l *raft.Log) interface{} {
 
 	msg := robust.NewMessageFromBytes(l.Data, robust.IdFromRaftIndex(l.Index))
 	glog.Infof("Apply(msg.Type=%s)\n", msg.Type)
-	defer func() { verifhook.At("fsm.apply", "index", l.Index, "type", int64(msg.Type), "session", msg.Session.Id, "cmid", msg.ClientMessageId) }()
+	defer func() { verifhook.At("fsm.apply", "index", l.Index, "msg", &msg) }()
 	return fsm.applyProto(&p, &msg)
 }
 
